@@ -94,4 +94,114 @@ def getObjectResultsX (uuidFirst : Bool) (c : Cfg) (sx : SceneX) : Except Err (L
     | .byId => (Classification.pairById (toCls sx.ests) (toCls sx.gts)).map clsRes
     | .geometric => getObjectResults c (toScene sx)
 
+/-! ## error exits of the matching classes on objects without the geometry the mode needs (audit C01 finding 2)
+
+`get_object_results` selects the matcher from the FIRST estimate and the FIRST ground truth only.  On the geometric path
+`_get_score_table` then builds `matching_method_module(estimated_object, ground_truth_object, transforms)` for every
+SAME-frame pair, after `get_label_threshold` and before `is_better_than`; the constructor computes the value and raises
+when an object lacks what the mode reads (observed on the code, `DynamicObject2D` lists):
+
+| mode | 2-D object with ROI | 2-D object, `roi is None` (either side) |
+|---|---|---|
+| CENTERDISTANCE | value | `AttributeError` (`None.center`) |
+| IOU2D | value | `RuntimeError` (`get_area`: "self.roi is None.") |
+| PLANEDISTANCE | `AttributeError` (`get_footprint`) | `AttributeError` |
+| IOU3D | `AttributeError` (`get_volume`) | `AttributeError` |
+
+3-D boxes always carry what all four modes read.  `getObjectResultsXE` is `getObjectResultsX` with these exits. -/
+
+/-- the exception raised when the matching method of mode `m` is constructed for the pair `(e, g)` -/
+def valueError (is2d : Bool) (m : Mode) (e g : ObjX) : Option Err :=
+  if is2d then
+    match m with
+    | .planeDistance => some "AttributeError"
+    | .iou3d => some "AttributeError"
+    | .centerDistance => if e.roiNone || g.roiNone then some "AttributeError" else none
+    | .iou2d => if e.roiNone || g.roiNone then some "RuntimeError" else none
+  else none
+
+/-- body of the double loop of `_get_score_table` with the constructor of the matching method in its place -/
+def cellXE (c : Cfg) (is2d : Bool) (e g : ObjX) (v : Rat) : Except Err Cell :=
+  if e.frame == g.frame then do
+    let thr ← labelThreshold c.targets c.thresholds g.label
+    match valueError is2d c.mode e g with
+    | some err => throw err
+    | none =>
+      let ok ← match thr with
+        | none => pure true
+        | some t => isBetterThan c.mode v t
+      if ok then pure ⟨some v, isMatchable c.policy (toObj e) (toObj g)⟩ else pure Cell.nan
+  else pure Cell.nan
+
+def cellAtXE (c : Cfg) (sx : SceneX) (i j : Nat) : Except Err Cell :=
+  match sx.ests[i]?, sx.gts[j]? with
+  | some e, some g => cellXE c sx.is2d e g (sx.val i j)
+  | _, _ => .ok Cell.nan
+
+/-- first exception raised while the table is filled (row-major), constructor exits included -/
+def tableErrorXE (c : Cfg) (sx : SceneX) : Option Err :=
+  (List.range sx.ests.length).findSome? fun i =>
+    (List.range sx.gts.length).findSome? fun j =>
+      match cellAtXE c sx i j with
+      | .error e => some e
+      | .ok _ => none
+
+/-- `get_object_results` for every kind of object and every LIST of objects (also lists whose first objects carry a
+ROI and a later one does not, and 2-D objects with a 3-D-only mode) -/
+def getObjectResultsXE (uuidFirst : Bool) (c : Cfg) (sx : SceneX) : Except Err (List Res) :=
+  match sx.ests, sx.gts with
+  | [], _ => .ok []
+  | _ :: _, [] => .ok (if c.fpValidation then [] else fpResults (List.range sx.ests.length))
+  | e0 :: _, g0 :: _ =>
+    match dispatch sx.is2d e0 g0 with
+    | .tlr => (Classification.pairTlr uuidFirst (toCls sx.ests) (toCls sx.gts)).map clsRes
+    | .byId => (Classification.pairById (toCls sx.ests) (toCls sx.gts)).map clsRes
+    | .geometric =>
+      match tableErrorXE c sx with
+      | some e => .error e
+      | none => getObjectResults c (toScene sx)
+
+/-! ## label FAMILIES (audit C01 finding 8)
+
+`Label.__eq__` compares enum MEMBERS (`common/label.py`): `AutowareLabel.UNKNOWN != TrafficLightLabel.UNKNOWN` although
+both have the value `"unknown"`; `is_fp()` / `is_unknown()` go through `CommonLabel`, which contains the members of BOTH
+families; `get_label_threshold` tests `semantic_label.label in target_labels` (member equality).  `Matching.Obj` carries
+the member VALUE only, which is exact as long as one call uses one family (the assumption in the header).  The
+definitions below carry the family (`ObjX.tl`) and state what the code does for mixed families; `Lemmas/MatchingFamily`
+proves that they coincide with the value-only model under the one-family assumption. -/
+
+/-- `is_same_label`: equality of enum members = same family and same value -/
+def sameMember (e g : ObjX) : Bool := e.tl == g.tl && e.label == g.label
+
+/-- `MatchingLabelPolicy.is_matchable` on members -/
+def isMatchableF (p : Policy) (e g : ObjX) : Bool :=
+  if isFp g.label || p == .allowAny then true
+  else if p == .allowUnknown then sameMember e g || isUnknown e.label
+  else sameMember e g
+
+/-- `get_label_threshold` with target labels as members `(is traffic-light family, value)` -/
+def labelThresholdF (targets : Option (List (Bool × String))) (thrs : Option (List Rat)) (g : ObjX) :
+    Except Err (Option Rat) :=
+  match targets, thrs with
+  | none, _ => .ok none
+  | some _, none => .ok none
+  | some ts, some th =>
+    match ts.findIdx? (fun t => t.1 == g.tl && t.2 == g.label) with
+    | none => .ok none
+    | some k =>
+      match th[k]? with
+      | some r => .ok (some r)
+      | none => .error "IndexError"
+
+/-- one cell of the score table on members -/
+def cellF (p : Policy) (m : Mode) (targets : Option (List (Bool × String))) (thrs : Option (List Rat))
+    (e g : ObjX) (v : Rat) : Except Err Cell :=
+  if e.frame == g.frame then do
+    let thr ← labelThresholdF targets thrs g
+    let ok ← match thr with
+      | none => pure true
+      | some t => isBetterThan m v t
+    if ok then pure ⟨some v, isMatchableF p e g⟩ else pure Cell.nan
+  else pure Cell.nan
+
 end PEval.MatchDispatch
